@@ -54,7 +54,8 @@ def generate(rng: random.Random, cons: dict) -> dict:
     if seg is None:
         seg = rng.random() < cons.get("p_seg", 0.5)
     ndim = cons.get("ndim") or rng.choice([3, 3, 4])
-    T = rng.randint(2, 6)
+    deep = rng.random() < 0.3  # deeper trees: divisions whose daughters have descendants
+    T = rng.randint(5, 6) if deep else rng.randint(2, 6)
     if ndim == 3:
         fshape = (rng.randint(6, 10), rng.randint(6, 10))
     else:
@@ -80,6 +81,8 @@ def generate(rng: random.Random, cons: dict) -> dict:
     max_nodes = cons.get("max_nodes", 12)
     if cons.get("empty_ok", True) and rng.random() < 0.06:
         n_nodes = 0
+    elif deep:
+        n_nodes = rng.randint(8, max_nodes + 4)
     else:
         n_nodes = rng.randint(1, max_nodes)
     id_style = rng.choice(["contig", "contig", "sparse", "large"])
@@ -105,7 +108,7 @@ def generate(rng: random.Random, cons: dict) -> dict:
     tt = {n: nodes[str(n)]["t"] for n in ids}
     outdeg = {n: 0 for n in ids}
     edges = []
-    p_edge = rng.choice([0.5, 0.8, 0.95])
+    p_edge = 0.97 if deep else rng.choice([0.5, 0.8, 0.95])
     order = ids[:]
     rng.shuffle(order)
     for v in order:
